@@ -220,6 +220,35 @@ const char *tr_ident_sim(void *sock)
 	return buf[p.si % SIM_MAX_TASKS];
 }
 
+// rendezvous delays waiting for this socket's progress through its current answer
+void release_holds(World &W, Peer &p)
+{
+	if (W.holds.empty() || p.cur_x < 0)
+		return;
+	Exchange &x = p.xs[(size_t)p.cur_x];
+	for (auto &h : W.holds) {
+		if (h.released || h.sock != p.si || x.script_index != h.xi || x.gen != p.gen)
+			continue;
+		size_t end = x.start_off + x.bytes.size();
+		if (p.consumed + h.before < end)
+			continue;
+		h.released = true;
+		Peer &q = W.peers[(size_t)h.peer];
+		uint64_t now = sim_now_ns();
+		bool any = false;
+		for (auto &sg : q.inq)
+			if (sg.hold == h.id) {
+				sg.t = now;
+				sg.hold = 0;
+				any = true;
+			}
+		if (any) {
+			W.ctx.count("probe_rendezvous_released");
+			sim_wake(SIM_W_IO, &q);
+		}
+	}
+}
+
 int tr_recv_sim(const void *sock, void *buf, const size_t len, const time_t timeout)
 {
 	World &W = *g_world;
@@ -275,6 +304,7 @@ int tr_recv_sim(const void *sock, void *buf, const size_t len, const time_t time
 				sim_wake(SIM_W_USER, &W.reader_cv);
 			W.ctx.count("bytes_delivered", n);
 			sim_log(EV_IO, (3u << 8) | (unsigned)p.si, n);
+			release_holds(W, p);
 			return (int)n;
 		}
 		if (p.inq.empty() && p.peer_closed) {
@@ -688,7 +718,17 @@ void check_others_untouched(World &W, int si, const std::set<PfxRec> &allp, cons
 		if (q.in_sync || q.stopping || !q.started || maybe_expired(W, o))
 			continue;
 		if (of_src(allp, o) != W.model_pfx[(size_t)o] || of_src(alls, o) != W.model_spki[(size_t)o]) {
-			W.ctx.viol("C03", "other-source-altered", "C03:others:altered", "records of socket %d changed while socket %d synchronised", o, si);
+			std::set<PfxRec> now1 = of_src(allp, o);
+			std::string ex;
+			for (auto &r : W.model_pfx[(size_t)o])
+				if (!now1.count(r) && ex.size() < 200)
+					ex += " -" + r.str();
+			for (auto &r : now1)
+				if (!W.model_pfx[(size_t)o].count(r) && ex.size() < 200)
+					ex += " +" + r.str();
+			W.ctx.viol("C03", "other-source-altered", "C03:others:altered",
+				   "records of socket %d changed while socket %d synchronised (%zu prefix / %zu key records before, %zu / %zu now;%s)", o, si,
+				   W.model_pfx[(size_t)o].size(), W.model_spki[(size_t)o].size(), now1.size(), of_src(alls, o).size(), ex.c_str());
 			W.model_pfx[(size_t)o] = of_src(allp, o);
 			W.model_spki[(size_t)o] = of_src(alls, o);
 		}
@@ -696,6 +736,10 @@ void check_others_untouched(World &W, int si, const std::set<PfxRec> &allp, cons
 }
 
 } // namespace
+
+namespace {
+uint64_t table_digest(World &W);
+}
 
 void oracle_on_client_pdu(World &W, Peer &p, const uint8_t *pdu, size_t len)
 {
@@ -751,6 +795,16 @@ static void oracle_on_query_locked(World &W, Peer &p, Exchange &x)
 	Belief &b = W.belief[(size_t)si];
 	p.query_count++;
 	W.ctx.count("queries_seen");
+	if (W.max_queries && ++W.total_queries >= W.max_queries && !W.truncate) {
+		// the horizon of a fixed-length run in queries (a cache may legally make the client poll back to back): the
+		// comparison digests end here, at a point that is the same in every variant of the plan
+		W.truncate = true;
+		W.digest_until = sim_now_ns();
+		W.dig_tables_cut = table_digest(W);
+		W.tables_cut = true;
+		W.ctx.count("runs_ended_by_query_horizon");
+		sim_wake(SIM_W_USER, &W);
+	}
 	W.note("query s%d %s v%d sess=%u serial=%u | belief has=%d sess=%u serial=%u ver=%d maybe=%d", si, x.qtype == 2 ? "RESET" : "SERIAL", x.qver, x.qsession,
 	       x.qserial, b.has_session, b.session, b.serial, b.version, b.maybe_reset);
 	// ---- C13: version of the query
@@ -927,6 +981,8 @@ void sync_exit(World &W, int si, int rc)
 	sim_nopreempt_begin();
 	simalloc_pause(1);
 	sync_exit_locked(W, si, rc);
+	// only now is this socket's model up to date again: until here other sockets' audits leave its records alone
+	W.peers[(size_t)si].in_sync = false;
 	simalloc_pause(0);
 	sim_nopreempt_end();
 }
@@ -936,7 +992,6 @@ void sync_exit_locked(World &W, int si, int rc)
 	Peer &p = W.peers[(size_t)si];
 	Belief &b = W.belief[(size_t)si];
 	const rtr_socket &sock = W.socks[(size_t)si];
-	p.in_sync = false;
 	W.ctx.count("sync_audits");
 	if (p.cur_x < 0) {
 		W.ctx.count("note_sync_without_query");
@@ -989,8 +1044,18 @@ void sync_exit_locked(World &W, int si, int rc)
 		W.ctx.count("probe_sync_ended_by_stop");
 		return;
 	}
-	std::set<PfxRec> allp = actual_pfx_all(W);
-	std::set<SpkiRec> alls = actual_spki_all(W);
+	// one instant for both tables: an enumeration that had to wait for a table lock (held by a preempted socket thread) let
+	// other tasks run in between and is taken again
+	std::set<PfxRec> allp;
+	std::set<SpkiRec> alls;
+	for (int attempt = 0;; attempt++) {
+		uint64_t blocks = sim_get_stats()->lock_blocks;
+		allp = actual_pfx_all(W);
+		alls = actual_spki_all(W);
+		if (sim_get_stats()->lock_blocks == blocks || attempt >= 8)
+			break;
+		W.ctx.count("probe_audit_snapshot_retaken");
+	}
 	std::set<PfxRec> ap = of_src(allp, si);
 	std::set<SpkiRec> as = of_src(alls, si);
 	const std::set<PfxRec> &bp = W.model_pfx[(size_t)si];
@@ -1557,7 +1622,9 @@ void run_world(const J &plan, RunCtx &ctx)
 	W.n = (int)caches.size();
 	W.focus = plan.gets("focus");
 	W.debug = plan.geti("debug", 0) != 0;
+	ctx.keep_notes = W.debug;
 	W.soft_steps = (uint64_t)plan.geti("soft_steps", 250000);
+	W.max_queries = (uint64_t)plan["end"].geti("max_queries", 0);
 	W.hostile = plan.geti("hostile", 0) != 0;
 	W.chunk = Rng(plan["chunk"]["seed"].u64(1));
 	std::string cm = plan["chunk"].gets("mode", "all");
@@ -1979,7 +2046,7 @@ void run_world(const J &plan, RunCtx &ctx)
 			sim_join_task(t);
 		evaluate_reads6(W);
 	}
-	ctx.extra["digests"]["tables"] = hex64(table_digest(W));
+	ctx.extra["digests"]["tables"] = hex64(W.tables_cut ? W.dig_tables_cut : table_digest(W));
 	ctx.extra["digests"]["states"] = hex64(W.dig_states);
 	ctx.extra["digests"]["sent"] = hex64(W.dig_sent);
 	ctx.count("group_consequences_unfinished_at_end", W.gpend.size()); // their threads are still inside the failover action
